@@ -505,6 +505,13 @@ def main():
                     affected = srcfp.affected_names(fp.get("changed", [])) if not fp_ok else ()
                 except Exception:
                     affected = ()
+                # destructors and iterator protocol methods are entered through the operation that creates the view
+                affected = set(affected)
+                for n in fp.get("changed", []):
+                    if "Drain" in n or "CircularSlicePtr" in n:
+                        affected.add("drain")
+                    if "Iter" in n or n.startswith("slice_take") or n.startswith("translate_range"):
+                        affected |= {"iter", "iter_mut", "range", "range_mut", "into_iter", "drain"}
                 import cases as C
                 C.AFFECTED = set(affected)      # the sampled families keep every operation that enters a changed function
                 # a changed function that only exists in a feature-gated build is searched in that build as well
